@@ -32,7 +32,9 @@ pub fn div_ceil(n: &BigUint, d: &BigUint) -> BigUint {
 }
 
 pub fn sqrt_price_of_tick(t: i32) -> u128 {
-    whirlpool::math::sqrt_price_from_tick_index(t)
+    // (ticks beyond the protocol range - only a defective program stores them - are clamped: the program's own function
+    // panics on them, and a panic here would be a harness error instead of a verdict)
+    whirlpool::math::sqrt_price_from_tick_index(t.clamp(crate::decode::MIN_TICK, crate::decode::MAX_TICK))
 }
 pub fn tick_of_sqrt_price(p: u128) -> i32 {
     whirlpool::math::tick_index_from_sqrt_price(&p)
